@@ -142,6 +142,7 @@ static void fault_report(const char *fn)
 	snprintf(obj, sizeof obj, "%.60s", a); for (char *c = obj; *c; c++) if (*c == '+' || *c == '-' || *c == '(') { *c = 0; break; }
 	snprintf(what, sizeof what, "fault:%s:%s", obj, vk_last_fault.sig == 14 ? "hang" : vk_last_fault.is_write ? "write" : "read");
 	viol("C08", what, "%s: signal %d at %s accessing %s", fn, vk_last_fault.sig, r, a);
+	if (!strcmp(prop, "C01") || !strcmp(prop, "C06") || !strcmp(prop, "C11") || !strcmp(prop, "C15")) viol(prop, vk_last_fault.sig == 14 ? "no_result:hang" : "no_result:fault", "%s did not return (signal %d at %s): a valid call sequence produced no result", fn, vk_last_fault.sig, r);
 }
 static int last_ret;     /* return code of the public wrapper */
 static unsigned call_alarm_ms = 5000;
